@@ -489,7 +489,7 @@ def check(run):
                        "(event distances are not whole seconds); "
                        "a restart never happens exactly (to the microsecond) at an expiration instant: the "
                        "down times end in ...137 us (the clock reads of the restart cost microseconds)"]
-    cases = [gen_case(run.rng) for _ in range(300 if run.tier == 'quick' else 4000)]
+    cases = [gen_case(run.rng) for _ in range(300 if run.tier == 'quick' else 10000)]
     for c in cases:
         for b in c['blocks']:
             run.count('kind_' + b['kind'])
